@@ -22,7 +22,7 @@ Definition add16 (a b : N) : N := (a + b) mod two16.
 Definition mul16 (a b : N) : N := (a * b) mod two16.
 Definition sub16 (a b : N) : N := (a + two16 - b) mod two16.   (* a, b < 2^16 *)
 
-(* One flag per defect that was found in /repo; true = repaired.  All of them are fixed in /repo now, so [repaired] is
+(* One flag per defect that was found in /repo; true = repaired.  All nine are fixed in /repo now, so [repaired] is
    what /repo HEAD does; the other settings exist for the historical [_refuted] witnesses only.
      v_validate   (285c7b2) restoreLocked validates its argument (address known and not excluded, block aligned and in
                   range, not owned by another subscriber, limit, paired); commitRestoredPBA stops on a restore error
@@ -39,10 +39,10 @@ Record variant := { v_validate : bool; v_replace : bool; v_dedup : bool; v_rollb
                   completion commits only if the subscriber still holds the block, a failed one removes the
                   subscriber's reverse entries before releasing
                   (exactness for every completion order: Properties.C15_reverse_lookup_exact).
-     v_cfgcheck   cgnat.Config.Validate rejects a port-range that is not start <= end <= 65535 and a derived block
-                  size of 0 (fixes/C15_validate_port_geometry.patch)
-     v_degrel     a release frees the mapping that the degraded restore branch preserved for a session that was not
-                  activated again (fixes/C15_release_preserved_mapping.patch) *)
+     v_cfgcheck   (0e7517a) cgnat.Config.Validate rejects a port-range that is not start <= end <= 65535 and a derived block
+                  size of 0
+     v_degrel     (2953f22) a release frees the mapping that the degraded restore branch preserved for a session that was not
+                  activated again *)
 Definition repaired : variant :=
   {| v_validate := true; v_replace := true; v_dedup := true; v_rollback := true; v_vrfkey := true; v_xpool := true;
      v_late := true; v_cfgcheck := true; v_degrel := true |}.
@@ -78,7 +78,7 @@ Definition get_bs (r : rawcfg) : N :=
 Definition get_max (r : rawcfg) : N := if 0 <? r_max r then r_max r else 4.
 Definition get_paired (r : rawcfg) : bool := (r_pooling r =? 0) || (r_pooling r =? 1).
 
-(* what Config.Validate checks of one pool's port geometry (after the fix) *)
+(* what Config.Validate checks of one pool's port geometry (0e7517a) *)
 Definition pool_ok (r : rawcfg) : bool :=
   match r_range r with Some (a, b) => (a <=? b) && (b <? two16) | None => true end && negb (get_bs r =? 0).
 
@@ -594,7 +594,7 @@ Definition mon_trace (s : comp) (ip port : N) : bool :=
   end.
 
 (* ---------------------------------------------------------------- several pools on one PoolManager *)
-(* pools are independent allocators; cgnat.Config.Validate (after the fix) rejects configurations in which two
+(* pools are independent allocators; cgnat.Config.Validate (1fd8c60) rejects configurations in which two
    pools list a common outside address *)
 Definition outside_set (r : rawcfg) : list N := flat_map expand (r_outside r).
 Definition share_address (r1 r2 : rawcfg) : bool :=
